@@ -1,11 +1,12 @@
 (* C08 driver for the extracted certificate checker (coq/C08/C08_Model.v), float NumOps.  Reads the cases printed by
    harness/C08_fdyn.cpp (CASE / MROW / GROW / RHS / B / UDOT / LAMFULL / U lines; everything else ignored) and prints per case
-     MODEL <case> DYN <n residuals> | CON <m residuals> | POWER <p>                                  all %h *)
+     MODEL <case> DYN <n residuals> | CON <m residuals> | POWER <p>                                  all %h
+   and for every FLAG line (default flag, reported flags | request history) the model's flag:  MFLAG <case> <constraint> <0/1> *)
 open C08model
 #include "fops.inc"
 let fl = float_of_string
 let () =
-  let mrows = ref [] and grows = ref [] and mask = ref [] and rhs = ref [] and b = ref [] and udot = ref [] and lam = ref [] and u = ref [] and id = ref "" in
+  let mrows = ref [] and grows = ref [] and mask = ref [] and rhs = ref [] and b = ref [] and udot = ref [] and lam = ref [] and u = ref [] and id = ref "" and pre = ref "" in
   let rec nat_of_int n = if n <= 0 then O else S (nat_of_int (n - 1)) in
   let finish () =
     let m = List.rev !mrows and g = List.rev !grows and mk = List.rev !mask in
@@ -16,6 +17,9 @@ let () =
   try while true do
     let line = input_line stdin in
     match toks line with
+    | "PRE" :: k :: _ -> pre := k
+    | "FLAG" :: i :: d :: _ :: _ :: "|" :: h ->      (* model: the flag after the request history is the last request *)
+        Printf.printf "MFLAG %s %s %d\n" !pre i (if disabled_after (d = "1") (List.map (fun x -> x = "1") h) then 1 else 0)
     | "CASE" :: k :: _ -> id := k; mrows := []; grows := []; mask := []; rhs := []; b := []; udot := []; lam := []; u := []
     | "MROW" :: _ :: r -> mrows := List.map fl r :: !mrows
     | "GROW" :: _ :: mk :: r -> grows := List.map fl r :: !grows; mask := (mk = "1") :: !mask
